@@ -50,6 +50,17 @@ def case_strategy(backend):
             sq, ms = g.seq("e", main_only=True)
             m = draw(st.sampled_from(ms))
             cols.append(draw(st.sampled_from([f"{sq}.Select(lambda v: v.{m}())", f"{sq}.Select(lambda v: v.{m}())", f"{sq}.Count()", f"{sq}.Select(lambda v: v.{m}()).Sum()"])))
+        # a single event object (EventInfo): fetched again for every event, also when it is used inside a loop
+        for sing in [c for c in sch.colls if c.singleton]:
+            nm = [m for m in sch.classes[sing.element].methods if m.kind == "num" and not m.enum]
+            if nm and draw(st.booleans()):
+                g.uses.append((sing.accessor, sing.banks[0]))
+                one = f"e.{sing.accessor}({sing.banks[0]!r}).{draw(st.sampled_from(nm)).name}()"
+                if draw(st.booleans()):
+                    cols.append(one)
+                else:
+                    sq2, ms2 = g.seq("e", main_only=True)
+                    cols.append(f"{sq2}.Select(lambda v: v.{draw(st.sampled_from(ms2))}() + {one})")
         g.want = draw(st.sampled_from(["unguarded", "unguarded", None]))
         first = g.first_template("e")[0]
         cols.insert(draw(st.integers(0, len(cols))), first)
